@@ -2,6 +2,8 @@
 
 from __future__ import annotations
 
+from ..vloop import texc
+
 import asyncio
 import dataclasses
 import json
@@ -295,7 +297,7 @@ def w_misc(seed: int) -> Part:
                         part.viol("read-tool-hangs", f"{name} {p!r}", ["read", cls.__name__, pl(p) if p else None, vt])
                         t.cancel()
                         continue
-                    exc = t.exception()
+                    exc = texc(t)
                     if exc is not None:
                         try:
                             cls.from_knx(p) if p is not None else None
